@@ -469,6 +469,7 @@ class SimNet:
     def connect(self):
         """Set up all pairwise connections (handshakes are delivered by the scheduler)."""
         m = self.m
+        self.t_connect = self.rts[0].threshold      # the handshakes carry the PRSS keys of this threshold
         if m == 1:
             return
         for i in range(m):
